@@ -324,6 +324,9 @@ func checkC07(r *Run) propMeta {
 	checkTerminalsByType(r, vm)
 	checkBareKeyKeywords(r, g)
 	checkKeyedStores(r)
+	checkEmitterPackageState(r, "C07-R9-emitter-stateless")
+	checkNameCodecSymmetry(r)
+	checkParsedNumbersUnconverted(r)
 	r.Floor("C07-R6-bare-key-keywords", 1)
 	r.Floor("C07-R1-pair", 150)
 	r.Floor("C07-R1-info-terminal", 10)
